@@ -32,6 +32,8 @@ def reachable_bodies(lib, cg=None):
         tr = b.impl_trait or ""
         if tr.startswith("serde::") and tr not in DESERIALIZER_SIDE:
             roots.append(b.deff)
+        if tr == "ToJmespath":  # search<T: ToJmespath>: every (specialised) conversion is an entry point
+            roots.append(b.deff)
     for d in cg.trait_impls.get(("functions::Function", "evaluate"), []):
         roots.append(d)
     return cg, cg.reachable_from(roots)
